@@ -64,6 +64,7 @@ def cases(draw):
                                           max_size=3, unique=True))
     if kind == "scripted":
         checker["script"] = draw(scripts())
+        checker["late"] = draw(st.integers(0, 3)) == 0
     names = NAMES + (sorted(checker.get("script", {})))
     xs = draw(st.lists(fmt_instances, min_size=3, max_size=4))
     if draw(st.booleans()):
@@ -116,12 +117,21 @@ def with_formats(d, schema, fpos):
 class Scripted(object):
     """Builds a FormatChecker whose functions follow the script, and the model of what it must do."""
 
-    def __init__(self, script):
+    def __init__(self, script, late=False):
         self.script = script
         self.raised = []        # exception objects raised by listed behaviours, in order
         self.fc = impl.jsonschema.FormatChecker(formats=())
+        self.registered = False
+        if not late:
+            self.register()
+
+    def register(self):
+        """Late mode: the caller registers after having handed the (still empty) checker to a validator."""
+        if self.registered:
+            return
+        self.registered = True
         exc = {"ListedA": ListedA, "ListedB": ListedB, "ListedK": ListedK, "KeyError": KeyError}
-        for name, sc in script.items():
+        for name, sc in self.script.items():
             listed = tuple(exc[n] for n in sc["listed"])
             self.fc.checks(name, raises=listed)(self.make(name, sc, listed))
 
@@ -168,7 +178,7 @@ class Scripted(object):
         return "propagate"
 
 
-def build_checker(d, spec_):
+def build_checker(d, spec_, allow_late=False):
     js = impl.jsonschema
     k = spec_["kind"]
     if k == "none":
@@ -182,7 +192,7 @@ def build_checker(d, spec_):
         return js.FormatChecker(formats=names), None
     if k == "subset-all":
         return js.FormatChecker(formats=sorted(js.FormatChecker.checkers)), None
-    sc = Scripted(spec_["script"])
+    sc = Scripted(spec_["script"], late=bool(spec_.get("late")) and allow_late)
     return sc.fc, sc
 
 
@@ -293,7 +303,13 @@ class C12(Prop):
             return res
         rest = dict((k, v) for k, v in s.items() if k != "format")
         # ONE checker object serves every instance of the case in turn (a checker is a long-lived object)
-        fc, sc = build_checker(d, case["checker"])
+        fc, sc = build_checker(d, case["checker"], allow_late=True)
+        vlate = None
+        if sc is not None and not sc.registered:
+            # the validator is handed a checker that knows nothing yet; the functions are registered afterwards
+            vlate = cls(copy.deepcopy(s), format_checker=fc)
+            sc.register()
+            res.labels.append("registered-after-construction")
         for x in case["instances"]:
             res.evals += 1
             known = name in fc.checkers
@@ -309,7 +325,7 @@ class C12(Prop):
             res.labels.append("model:" + m)
             base = sorted(key_nocause(e) for e in cls(rest).iter_errors(copy.deepcopy(x)))
             try:
-                errs = list(cls(copy.deepcopy(s), format_checker=fc).iter_errors(x))
+                errs = list((vlate or cls(copy.deepcopy(s), format_checker=fc)).iter_errors(x))
                 raised = None
             except Exception as e:
                 errs, raised = None, e
